@@ -43,4 +43,9 @@ CLAIMED['C20'] = {
     'text': 'For every logger state and every verbosity value the wrapped call is proved to return exactly the wrapped result (or propagate exactly its exception) with the console level restored, and to raise nothing of its own before set_up; by the frame conditions of the other operations the level after any history is the last one set explicitly. Result identity for the real sifts across logger states is bounded.',
     'note': 'Assumes the ghost model of logging (one optional console handler, Handler.level/setLevel/get_name, logging.disable) and that the wrapped function does not itself touch the logger state; the pyvc engine and SMT solvers are trusted.',
 }
+CLAIMED['C19'] = {
+    'technique': 'deductive: shape case analysis (ndim 1..4, symbolic extents) of the four ensure_* validators with accept/reject postconditions; frame conditions (no write reaches a caller-owned buffer or dict) generated by the engine from the real source of the spectra / cycle-detection / second-layer routines; bounded stand-in: layouts x routines, read-only inputs, reused dicts, repeated calls',
+    'text': 'The input validators are proved to accept exactly the documented single-signal layouts (returning the same elements) and to raise for every other extent combination; writes into argument buffers / option dicts are proved absent for the routines listed in the evidence. Layout-equivalence of complete numerical results, determinism and the frames of the numerically heavy routines are bounded.',
+    'note': PROOF_NOTE + 'View/copy semantics of numpy are an assumed contract (buffer identities).',
+}
 PENDING_REASON = {}
